@@ -67,6 +67,9 @@ func c01Wire[M any](m M) M {
 	return out
 }
 
+// C01Wire is c01Wire for callers outside the package (key material that a check decodes once per execution).
+func C01Wire[M any](m M) M { return c01Wire(m) }
+
 // c01B delivers a broadcast round eagerly: per recipient, everybody else's message keyed by sender.
 func c01B[M any](ids []ID, out map[ID]M) map[ID]ds.Map[ID, M] {
 	d := map[ID]ds.Map[ID, M]{}
